@@ -269,7 +269,15 @@ def run_steady(chk, scratch):
         pairs = [(a, b) for a in CYCLES for b in CYCLES if a != b]
     todo = singles + pairs
     items = [jdn({Kw("a"): Kw(a), Kw("b"): Kw(b) if b else None, Kw("n"): n, Kw("scratch"): scratch}) for a, b in todo]
-    res = run_batch("fast", STEADY, items, env={"VERIF_VTIME": "1"}, chunk=4, timeout=120, max_deaths=6)
+    res = run_batch("fast", STEADY, items, env={"VERIF_VTIME": "1"}, chunk=4, timeout=120 if chk.quick else 300, max_deaths=6)
+    # a chunk that ran out of time on a loaded machine is not a hang of the cycle: every timed-out item is run again
+    # alone with a generous limit before it counts (cycles with live threads or children cost real-time patience)
+    late = [i for i, (st, _) in enumerate(res) if st == "TIMEOUT"]
+    if late:
+        again = run_batch("fast", STEADY, [items[i] for i in late], env={"VERIF_VTIME": "1"}, chunk=1, timeout=1200, max_deaths=6)
+        for i, r in zip(late, again):
+            res[i] = r
+        chk.part("steady", rerun_after_chunk_timeout=len(late))
     for (a, b), (st, text) in zip(todo, res):
         chk.add(evaluations=1, transitions=4, states=4)
         name = a + ("+" + b if b else "")
